@@ -330,6 +330,19 @@ def analyse(fx, b, col, rule='LEDGER', unwind_rule='LEDGER-UNWIND', declared_exi
                     kind = 'direct: drop of a generic value (%s)' % t['ty']
                 elif t['ty'].startswith('strategy::hybrid::HybridProtection'):
                     kind = 'direct: drop of a protection (may release the last count)'
+            if k == 'call' and (t['callee'].get('trait') or '').endswith('ref_cnt::RefCnt'):
+                kind = user_call_kind(t)
+                kind = ('direct: ' + kind) if kind else None
+            elif k == 'call' and (t['callee'].get('trait') or '').startswith('arc_swap::strategy::sealed') and t['callee'].get('self_is_param'):
+                # sealed strategy trait: all impls are in this crate
+                nm = t['callee'].get('name')
+                impls = [x for x in lib.bodies if x.name == nm and (x.j.get('impl_trait') or '') == t['callee'].get('trait')]
+                kind = ('transitive: strategy method %s can reach user code' % nm) if any(x.key in mu for x in impls) else None
+            if kind and k == 'call' and U.callee_name(t) == 'wait_for_readers' and _exclusive_cell(b, t):
+                # the cell is reached through get_mut (exclusive access): no reader of this cell can be in its
+                # intent window, so the helper never produces a replacement, and the phantom copy dropped at the
+                # end of pay_all is never the last owner (the count taken out is still held): no user code runs
+                kind = None
             if kind:
                 u = t.get('unwind')
                 # effect of the unwinding operation itself: a release completes before the panic propagates
@@ -353,6 +366,12 @@ def analyse(fx, b, col, rule='LEDGER', unwind_rule='LEDGER-UNWIND', declared_exi
                             x = tt['target']
                         elif tt['k'] == 'goto':
                             x = tt['target']
+                        elif tt['k'] == 'switch':
+                            # drop flag: follow the branch selected by the last constant written on this path
+                            nxt = _drop_flag_target(b, tt, path)
+                            if nxt is None:
+                                break
+                            x = nxt
                         elif tt['k'] == 'call':
                             w2 = lg.call_weight(x, tt)
                             if w2 and w2[0] is not None:
@@ -400,6 +419,47 @@ def analyse(fx, b, col, rule='LEDGER', unwind_rule='LEDGER-UNWIND', declared_exi
             col.fail(unwind_rule, '%s|%s|%s' % (fn, kd, what),
                      'if `%s` unwinds here (%s) the function holds %+d raw count(s) that no destructor on the unwind path gives back' % (what, kind, ub), loc)
     return results
+
+
+def _exclusive_cell(b, t):
+    """the storage argument of this wait_for_readers call is a cell that the same body accessed
+    through Atomic::get_mut (i.e. the body has exclusive access to the container)"""
+    if len(t['args']) < 3:
+        return False
+    r, f = b.ref_path(t['args'][2])
+    for bb, tt in b.calls(include_cleanup=False):
+        if U.callee_name(tt) == 'get_mut' and U.is_atomic_callee(tt['callee']) and b.dominates(bb, b_block_of(b, t)):
+            r2, f2 = b.ref_path(tt['args'][0])
+            if r2 == r and [x['name'] for x in f2] == [x['name'] for x in f]:
+                return True
+    return False
+
+
+def b_block_of(b, term):
+    for bb in range(b.n):
+        if b.term(bb) is term:
+            return bb
+    return 0
+
+
+def _drop_flag_target(b, tt, path):
+    o = tt['discr']
+    if o['k'] not in ('copy', 'move') or o['place']['proj']:
+        return None
+    l = o['place']['local']
+    val = None
+    for bb in path:
+        for st in b.stmts(bb):
+            if st['k'] == 'assign' and st['dest']['local'] == l and not st['dest']['proj'] and st['rv']['k'] == 'use':
+                c = st['rv']['op']
+                if c['k'] == 'const' and 'int' in c['c']:
+                    val = c['c']['int']
+    if val is None:
+        return None
+    for v, tb in tt['targets']:
+        if v == val:
+            return tb
+    return tt['otherwise']
 
 
 def ledger_functions(fx):
